@@ -97,6 +97,7 @@ fn dfs_case(ctx: &mut Ctx, prop: &'static str, classes: &'static [&'static str],
     });
     ctx.count("dfs_cases", 1);
     ctx.count("dfs_executions", st.executions);
+    ctx.count(&format!("dfs_executions_input_style_{}_threads_{}", case.input_style, case.threads), st.executions);
     ctx.max("largest_dfs", st.executions);
     if st.complete {
         ctx.count("dfs_cases_completed_exhaustively", 1);
@@ -119,6 +120,9 @@ fn sampled_schedules(ctx: &mut Ctx, prop: &'static str, classes: &'static [&'sta
     for _ in 0..n_random {
         specs.push(Spec::Controlled { strategy: Strategy::Random(r.gen()), early_poll_at: None, eager_recv: false });
     }
+    // one execution in which the coordinator polls an empty channel while tasks are in flight
+    // (it must then wait, not conclude that the work is done)
+    specs.push(Spec::Controlled { strategy: Strategy::Random(r.gen()), early_poll_at: Some(r.gen_range(1..6)), eager_recv: false });
     for spec in specs {
         let run = exec(ctx, case, spec.clone(), true);
         account(ctx, &run);
@@ -248,6 +252,22 @@ fn run_c02(ctx: &mut Ctx) {
         case.dup_edges = r.gen_bool(0.3);
         sampled_schedules(ctx, "C02", C02_CLASSES, &case, &mut r, ctx.tier.pick(3, 12), *mask != 0);
     }
+    // early poll at every choice point of a few fixed graphs (chain, diamond, fan-in)
+    for (n, mask) in [(3usize, 0b000_001_010u64), (4, 0b0000_1000_1000_0110), (3, 0b000_000_110)] {
+        let points = ctx.tier.pick(4u32, 14);
+        for at in 1..=points {
+            if !ctx.claim(2_000_000 + (n as u64) * 100 + mask + at as u64 * 100_000) {
+                continue;
+            }
+            let mut case = GraphCase::new(n, mask);
+            case.threads = 2;
+            let spec = Spec::Controlled { strategy: Strategy::Fixed(FixedOrder::RunFirstLifo), early_poll_at: Some(at), eager_recv: false };
+            let run = exec(ctx, &case, spec.clone(), true);
+            account(ctx, &run);
+            ctx.distinct.insert(case.hash() ^ run.trace_hash.rotate_left(13));
+            report(ctx, "C02", C02_CLASSES, &case, &run, &spec);
+        }
+    }
     // 5-8 files, free-running stress
     let n = ctx.tier.pick(60, 1500);
     free_stress(ctx, "C02", C02_CLASSES, &mut r, n, true);
@@ -306,6 +326,11 @@ fn digraph_enumeration(ctx: &mut Ctx, prop: &'static str, classes: &'static [&'s
                 let thread_set: &[usize] = if ctx.tier == Tier::Thorough { &[1, 2, 3] } else { &[1, 2] };
                 for &threads in thread_set {
                     k += 1;
+                    if style == 5 && threads > 1 && n == 3 && ctx.tier == Tier::Quick {
+                        // two concurrent directory scans + 3 files + 2 threads: 40x the rest; thorough only
+                        ctx.exhaustive = Some(false);
+                        continue;
+                    }
                     if !ctx.claim(k) {
                         continue;
                     }
